@@ -1232,7 +1232,14 @@ func (db *DB) grow(sz int) error {
 		return nil
 	}
 
+	minsz := sz
 	sz = db.growSize(db.datasz, sz)
+	if db.MaxSize > 0 && sz > db.MaxSize && minsz <= db.MaxSize {
+		// growSize rounds the request up to the current mmap size or by AllocSize.
+		// Never let that rounding take the file beyond MaxSize: the size that is
+		// actually needed was already checked against MaxSize in allocate.
+		sz = minsz
+	}
 
 	// Truncate and fsync to ensure file size metadata is flushed.
 	// https://github.com/boltdb/bolt/issues/284
